@@ -159,14 +159,26 @@ def _scc_text_words(text):
   return [_w(bs[i], bs[i + 1]) for i in range(0, len(bs), 2)]
 
 
+def _scc_odd_words(rng):
+  """legal 16-bit words in orders that no captioning protocol prescribes"""
+  pool = ["91ae", "9120", "9723", "97a1", "94a1", "942d", "942f", "942c", "94ae", "9429", "9420", "9425", "1520", "152f", "1d2c",
+          "9137", "9220", "1330", "102e", "97ad", "172e", "9440", "13e0", "1040", "c1c2", "2080", "0000", "7f7f", "94a4", "9428", "942b", "1f2f"]
+  return [rng.choice(pool) for _ in range(rng.randint(1, 8))]
+
+
 def scc_simple(rng):
   out = ["Scenarist_SCC V1.0", ""]
   frames = rng.randint(0, 3000)
   df = rng.random() < 0.3
   n = rng.randint(0, 6)
+  single = rng.random() < 0.3  # this encoder sends every code once
   for _ in range(n):
-    style = rng.choice(["pop", "roll", "paint"])
+    style = rng.choice(["pop", "roll", "paint", "odd"])
     words = []
+    if style == "odd":
+      words = _scc_odd_words(rng)
+      if rng.random() < 0.15:
+        words = []
     if style == "pop":
       words += ["9420", "9420"]
       if rng.random() < 0.5:
@@ -201,6 +213,16 @@ def scc_simple(rng):
       words += ["9429", "9429"]
       pac = _w(rng.choice([0x11, 0x13, 0x14]), rng.choice([0x40, 0x50, 0x70]))
       words += [pac, pac] + _scc_text_words(_text(rng, 3))
+    if single:
+      dedup = []
+      for w_ in words:
+        if dedup and dedup[-1] == w_ and w_[0] in "19":
+          continue
+        dedup.append(w_)
+      words = dedup
+    if rng.random() < 0.25 and style != "odd":
+      # a protocol violation in the middle of a well-formed caption
+      words[rng.randrange(len(words) + 1):0] = _scc_odd_words(rng)[:3]
     if rng.random() < 0.2:
       words.insert(rng.randrange(len(words) + 1), "8080")
     if rng.random() < 0.15:
